@@ -46,6 +46,31 @@ ASSUMPTIONS = ['ConfigObj parsing is not modelled: the model receives the tree o
                'stubs so that the two optional optimizers are discoverable',
                'the CLI comparison uses scratch pickle opacities (no line lists), rel 1e-12']
 
+# source tie (harness/translate.py, dialect 'dyn'): the value typing and the factory functions, regenerated on every run into
+# lean/TaurexModel/Gen/SrcC15.lean and proved equal to the functions of TaurexModel/Factory.lean in lean/Props/C15Src.lean
+_F = 'taurex/parameter/factory.py'
+_SECTION_FACTORIES = ['gas_factory', 'temp_factory', 'chemistry_factory', 'pressure_factory', 'star_factory',
+                      'model_factory', 'planet_factory', 'optimizer_factory', 'observation_factory', 'instrument_factory']
+SRC_SPECS = [
+    dict(module='taurex/parameter/parameterparser.py', cls='ParameterParser', func='transform', lean='transform',
+         dialect='dyn', mutates=['section']),
+    dict(module='taurex/mixin/core.py', func='determine_mixin_args', lean='determine_mixin_args', dialect='dyn'),
+    dict(module=_F, func='get_keywordarg_dict', lean='get_keywordarg_dict', dialect='dyn'),
+    dict(module=_F, func='create_klass', lean='create_klass', dialect='dyn'),
+    dict(module=_F, func='mixin_factory', lean='mixin_factory', dialect='dyn'),
+    dict(module=_F, func='generic_factory', lean='generic_factory', dialect='dyn'),
+] + [dict(module=_F, func=f, lean=f, dialect='dyn') for f in _SECTION_FACTORIES] + [
+    dict(module=_F, func='determine_klass', lean='determine_klass', dialect='dyn', mutates=['config'],
+         params={'factory': 'fn1'}),
+    dict(module=_F, func='create_profile', lean='create_profile', dialect='dyn', mutates=['config'],
+         params={'factory': 'fn1'}),
+] + [dict(module=_F, func=f, lean=f, dialect='dyn', mutates=['config'])
+     for f in ('create_star', 'create_planet', 'create_optimizer', 'create_observation', 'create_instrument')] + [
+    dict(module=_F, func='generate_contributions', lean='generate_contributions', dialect='dyn'),
+    dict(module=_F, func='create_model', lean='create_model', dialect='dyn', mutates=['config']),
+    dict(module=_F, func='create_prior', lean='create_prior', dialect='dyn'),
+]
+
 GEN = None
 BUILD_BROKEN = False
 
